@@ -40,13 +40,15 @@ def unit_rank_data(n):
     return _merge_canaries(settle(ctx.all_obls, mode="R"))
 
 
-def unit(model, sizes):
+def unit(model, sizes, generic=False):
+    """generic: sizes = (1,)*n and every team has a symbolic number of members (the listed member is
+    the arbitrary one, the aggregates are symbols): the same obligations for teams of every size"""
     recs = []
     n = len(sizes)
-    shape = f"sizes={sizes}"
+    shape = f"sizes={sizes}" if not generic else f"n={len(sizes)},any-team-size"
     fn = f"{model}.predict_rank"
     rp = std_replay("c11_rank", model, sizes)
-    W = PredictWorld(model, sizes)           # _rank_data replaced by its contract
+    W = PredictWorld(model, sizes, generic=generic)           # _rank_data replaced by its contract
     out = W.run("predict_rank")
     if out[0] != "return" or len(out[1]) != n or any(not isinstance(x, tuple) or len(x) != 2 for x in out[1]):
         return [driver.rec(f"C11/{model}/predict_rank/shape@{shape}", "refuted", "explorer", 0, fn=fn, shape=shape, replay=rp, note=repr(out[1])[:200])]
@@ -97,7 +99,7 @@ def unit(model, sizes):
             tot = tot + p
         recs.append(eq_rec(P, f"C11/{model}/rank-plus-draw@{shape}", tot, one, fn, shape, rp))
     from .predutil import history_records
-    if n <= 3:
+    if n <= 3 and not generic:
         recs += history_records("C11", W, model, sizes, ("predict_rank", "predict_draw"))
     return recs
 
@@ -105,6 +107,7 @@ def unit(model, sizes):
 def units(tier):
     us = [("unit_rank_data", (n,)) for n in range(1, (6 if tier == "quick" else 8))]
     us += [("unit", (m, s)) for m in extract.MODELS for s in shapes(tier, nmax=4 if tier == "quick" else 6)]
+    us += [("unit", (m, (1,) * n, True)) for m in extract.MODELS for n in range(2, (4 if tier == "quick" else 6) + 1)]
     return us
 
 
@@ -117,11 +120,12 @@ def main(tier, seed):
         PROP, tier, seed, "other", records, errors, walls, t0,
         functions=fns,
         assumptions=[
+            __import__("pyvc.props.anysize", fromlist=["A_SUM"]).A_SUM,
             "modular: predict_rank is verified with _rank_data replaced by its contract (competition ranks); the real _rank_data/_arg_sort are verified against that contract for n = 1..5 (thorough ..7) on symbolic values, every ordering with ties a path (native sorted on (value, index) pairs)",
             "A-Phi; equality of probabilities is equality of the reals they denote (whether identical teams get bit-identical floats is a rounding question, A-fp)",
             "shape-bounded (coverage.shapes)",
         ],
         explanation=("The real predict_rank is executed on symbolic teams with _rank_data replaced by its (separately verified) contract: n pairs in input order, pair i carrying team i's probability (exact identity with the closed form), probabilities in [0,1]; the integer-rank clauses (range 1..n, strictly larger probability => strictly better rank, equal => equal, best has rank 1) are proved by z3 for arbitrary probability values from the rank terms the code builds (max / abs reversal included); "
                      "for n >= 3 sum of rank probabilities + predict_draw is the constant 1 as an exact normal form."),
-        shapes=[str(s) for s in shapes(tier, nmax=4 if tier == "quick" else 6)],
+        shapes=[str(s) for s in shapes(tier, nmax=4 if tier == "quick" else 6)] + [f"n=2..{4 if tier == 'quick' else 6} teams of every size (symbolic member counts)"],
     )
